@@ -12,12 +12,16 @@
    length() is the number of distinct keys, chains hold each key once and in its own bin, reference counts agree,
    and that operator== agrees with equality of the abstract maps.
 
-   Three switches transcribe the code as it is on the pinned tree / re-open a design question; with all of them
+   Five switches transcribe the code as it is on the pinned tree / re-open a design question; with all of them
    FALSE the module is the repaired design and every invariant holds:
      HeadBug            remove() of the first node of a chain stores 0 in the bin (a[bin] = 0) instead of the successor
      EqLockstep         operator== compares the two enumerations position by position
      AllowSharedRehash  operator[] may rebuild the table while other handles share it (open finding RehashWhileShared:
                         the rebuilt table goes to the calling handle only; the nodes are relinked under the others)
+     ZeroBins           HashMap(n) with n < 1 builds a table of nextPoT(n) = 0 bins (every later access computes
+                        hash & (0 - 1) and indexes past the end of the table) instead of one bin
+     SelfAssignClears   operator= releases the own table before it looks at the argument: m = m with a reference
+                        count of 1 clears the map
    checks/C02.py model-checks the repaired design (must hold) and each switch on its own (TLC must produce the
    counterexample) - the latter shows that the invariants really see these defects.
 
@@ -29,7 +33,8 @@ EXTENDS Integers, Sequences, FiniteSets, TLC, Json, SequencesExt
 
 CONSTANTS NH, K, V, MaxOps, MapOps,  \* as in FiniteMap (K: non-negative integer keys = their hash values)
           NB0,                   \* bins of a freshly constructed table: HashMap(NB0)
-          HeadBug, EqLockstep, AllowSharedRehash
+          Sizes,                 \* arguments n of HashMap(n) in NewSized (expected number of entries)
+          HeadBug, EqLockstep, AllowSharedRehash, ZeroBins, SelfAssignClears
 
 VARIABLES ht,      \* handle -> table id (0: dead)
           tab,     \* table id -> [bins : Seq(chain), n : Int, rc : Int]; chain = Seq([k, v])
@@ -45,6 +50,12 @@ NoTab == [bins |-> <<>>, n |-> 0, rc |-> 0]
 NewTab(nb) == [bins |-> [i \in 1..nb |-> <<>>], n |-> 0, rc |-> 1]
 NBins(t) == Len(t.bins)
 Bin(k, nb) == (k % nb) + 1                     \* hash & (nb-1), 1-based
+\* nextPoT(n): the least power of two >= n; 0 for n < 1
+RECURSIVE PoT(_, _)
+PoT(n, p) == IF p >= n THEN p ELSE PoT(n, 2 * p)
+NextPoT(n) == IF n < 1 THEN 0 ELSE PoT(n, 1)
+\* HashMap(int n): a.resize(nextPoT(n) + ASL_HMAP_SKIP) - repaired: at least one bin
+BinsFor(n) == IF ZeroBins THEN NextPoT(n) ELSE NextPoT(IF n < 1 THEN 1 ELSE n)
 RECURSIVE Flatten(_, _)
 Flatten(bins, i) == IF i > Len(bins) THEN <<>> ELSE bins[i] \o Flatten(bins, i + 1)
 Enum(t) == Flatten(t.bins, 1)                  \* enumeration order: bins ascending, each chain from its head
@@ -166,15 +177,31 @@ NewEmpty(g) == /\ FM!NewEmpty(g)
                   /\ ht' = ht2
                   /\ tab' = GcT(ht2, [t1 EXCEPT ![nt] = NewTab(NB0)])
 
+\* HashMap(n) bound to g
+NewSized(g, n) == /\ FM!NewSized(g, n)
+                  /\ LET t1 == IF ht[g] # 0 THEN Release(tab, ht[g]) ELSE tab
+                         ht1 == [ht EXCEPT ![g] = 0]
+                         nt == FreeTab(ht1)
+                         ht2 == [ht EXCEPT ![g] = nt] IN
+                     /\ ht' = ht2
+                     /\ tab' = GcT(ht2, [t1 EXCEPT ![nt] = NewTab(BinsFor(n))])
+\* m = m: operator= called with the object itself
+AssignSelf(h) == /\ FM!AssignSelf(h)
+                 /\ UNCHANGED ht
+                 /\ tab' = IF SelfAssignClears /\ TT(h).rc = 1 THEN [tab EXCEPT ![ht[h]] = ClearT(@)] ELSE tab
+
 Next == /\ Len(hist) < MaxOps
         /\ \/ \E h \in H, k \in K, v \in V : SetKV(h, k, v)
            \/ \E h \in H, k \in K : Index(h, k) \/ RemoveK(h, k)
-           \/ \E h \in H : Clear(h) \/ Dup(h) \/ DropHandle(h) \/ NewEmpty(h)
+           \/ \E h \in H : Clear(h) \/ Dup(h) \/ DropHandle(h) \/ NewEmpty(h) \/ AssignSelf(h)
+           \/ \E h \in H, n \in Sizes : NewSized(h, n)
            \/ \E h, g \in H : Clone(h, g) \/ CopyHandle(h, g) \/ AssignHandle(h, g)
 Spec == Init /\ [][Next]_vars
 
 -------------------------------------------------------------------------------
 (* what TLC checks: the transcribed design implements FiniteMap *)
+\* every table has at least one bin (with none, binOf() indexes past the end of the array)
+BinsOK       == \A h \in Live : NBins(TT(h)) >= 1
 Refines      == \A h \in Live : AbsT(TT(h)) = gblk[ghb[h]]
 LengthOK     == \A h \in Live : TT(h).n = Len(Enum(TT(h))) /\ TT(h).n = FM!MapLen(gblk[ghb[h]])
 ChainsOK     == \A h \in Live : LET t == TT(h) IN
